@@ -8,6 +8,7 @@ if a literal moves, these proofs stop checking.
 -/
 import I2N.Lemmas.Pool
 import I2N.Lemmas.PoolListing
+import I2N.Extracted.GenPool
 namespace I2N.Props.C13
 open I2N.Pool
 
@@ -695,5 +696,26 @@ example : transferShow true ["launch.qcow2", "launch.qcow2.lock", "b.qcow2.lock"
     = ["launch", "launch.lock", "b.lock", "guisetup.noop"] := by decide
 example : transferShow false ["image1", "launch.state", "launch.state.lock"] = ["image1", "launch", "launch.lock"] := by decide
 example : '.' ∉ "launch".toList := by decide
+
+/-! ## The regenerated scope decision (`harness/pygen.py`)
+
+`I2N/Extracted/GenPool.lean` is regenerated on every run from the source of `SourcedStateBackend.get_source_scope`
+(Python AST → Lean, branch by branch; the six parameter reads are bound to the fields of `Env` / `Src` the model uses).
+`I2N.Extracted.Pool` already pins the five returned literals; this pins the *control flow* as well. -/
+
+open I2N.Extracted.GenPool in
+/-- **The hand written `sourceScope` is the Python source of `get_source_scope`**: same answer for all parameter
+sets and all sources.  No hypotheses. -/
+theorem sourceScope_matches_source (e : Env) (s : Src) : genSourceScope e s = sourceScope e s := by
+  unfold genSourceScope sourceScope
+  by_cases h1 : e.gateway = e.srcGateway s <;> by_cases h2 : e.host = e.srcHost s <;>
+    by_cases h3 : lstripColon e.sharedPool = s.path <;> by_cases h4 : e.swarmPool = s.path <;>
+    simp [h1, h2, h3, h4, bne]
+
+open I2N.Extracted.GenPool in
+/-- the generated definition computes: a source behind another gateway, and the own pool's path -/
+example : genSourceScope ⟨"gw1", "h1", "/own", "/shared", [("far", "gw2")], []⟩ ⟨"far", "/own"⟩ = "cluster" ∧
+    genSourceScope ⟨"gw1", "h1", "/own", ":/shared", [], []⟩ ⟨"", "/own"⟩ = "own" ∧
+    genSourceScope ⟨"gw1", "h1", "/own", ":/shared", [], []⟩ ⟨"", "/shared"⟩ = "shared" := by decide
 
 end I2N.Props.C13
